@@ -55,7 +55,12 @@ def run_job(job, gendir, workroot, vacuity=False, trace=True):
     if job.get('enforce') or job.get('replace') or job.get('loops'):
         gi = ['goto-instrument', '--dfcc', job['entry']]
         if job.get('enforce'): gi += ['--enforce-contract', job['enforce']]
-        for r in job.get('replace', []): gi += ['--replace-call-with-contract', r]
+        # a callee that the (possibly modified) code no longer calls has no symbol in the binary; dfcc aborts on unknown names
+        rc0, symtab, _ = sh(['goto-instrument', '--show-symbol-table', 'a.gb'], wd, 120, log)
+        present = set(re.findall(r'^Symbol\.*: (\S+)', symtab, re.M))
+        for r in job.get('replace', []):
+            if r in present: gi += ['--replace-call-with-contract', r]
+            else: res.setdefault('skipped_replace', []).append(r)
         if job.get('loops'): gi += ['--apply-loop-contracts']
         gi += ['a.gb', 'b.gb']
         rc, out, err = sh(gi, wd, 300, log)
